@@ -232,7 +232,7 @@ def write_replay(prop: Prop, seed: int, tier: str, n: int, payload: dict) -> str
 def run_check(prop: Prop, tier: str, seed: int) -> int:
     t0 = time.time()
     for old in (paths.VERIF / "replays").glob(f"{prop.id}-seed{seed}-{tier}-*.json"):
-        old.unlink()
+        old.unlink(missing_ok=True)
     info = {"translate": None, "build": None, "audit": None, "leanchecker": None}
     broken = []          # proof obligations / translation / audit that no longer check
     # 1-3: translate, build, audit
